@@ -857,6 +857,22 @@ func runC07(c *Ctx) {
 		}
 		R.AddInfo("E3.roundtrip-layout", n+" / not covered", "", report.Undecided, "the encoder builds the body in a loop or through helpers the layout extraction does not describe; not claimed")
 	}
+	// ---- the types the layout comparison does not cover: field symmetry of Parse and Encode
+	{
+		var unc []string
+		seenU := map[string]bool{}
+		for _, n := range notCovered {
+			base := n
+			if k := strings.Index(base, " "); k > 0 {
+				base = base[:k]
+			}
+			if !seenU[base] {
+				seenU[base] = true
+				unc = append(unc, base)
+			}
+		}
+		c.c07FieldSymmetry(unc)
+	}
 	// ---- helper rules
 	c.c07Helpers()
 	c.c07NarrowArith()
@@ -1569,4 +1585,144 @@ func (c *Ctx) c07ParamDispatch() {
 	if n < 80 {
 		R.Fatal("S.param-dispatch: only %d stores under ID cases found (the table has about 90 typed parameters)", n)
 	}
+}
+
+// c07FieldSymmetry: for the two-way types whose bodies the layout comparison cannot take apart (variable-size lists,
+// the parameter table), a weaker necessary condition of the round trip is decided: every field of the receiver that
+// Parse fills is a field that Encode reads - directly, or by handing the enclosing embedded struct to a call. A field
+// that is parsed but never encoded cannot come back from Encode(Parse(body)).
+func (c *Ctx) c07FieldSymmetry(names []string) {
+	R := c.R
+	R.Rules["S.field-symmetry"] = "for the two-way types not covered by the layout comparison: every receiver field that Parse (and the package helpers it calls on the receiver) stores is read by Encode (or lies inside an embedded struct that Encode hands to a call as a whole); exceptions confirmed on the pinned tree are listed in spec/c07_asymmetry.json"
+	var frozen struct {
+		ParsedNotEncoded map[string][]string `json:"parsed_not_encoded"`
+	}
+	c.loadSpec("c07_asymmetry.json", &frozen)
+	byName := map[string]*c07Type{}
+	for _, t0 := range c.c07Types() {
+		byName[t0.name] = t0
+	}
+	// paths of receiver fields touched by fn: stored / loaded / handed over whole
+	var collectInto func(fn *ssa.Function, pi int, depth int, stored, loaded, whole map[string]bool)
+	collect := func(fn *ssa.Function) (stored, loaded, whole map[string]bool) {
+		stored, loaded, whole = map[string]bool{}, map[string]bool{}, map[string]bool{}
+		collectInto(fn, 0, 0, stored, loaded, whole)
+		return
+	}
+	collectInto = func(fn *ssa.Function, pi int, depth int, stored, loaded, whole map[string]bool) {
+		if len(fn.Params) <= pi || len(fn.Blocks) == 0 {
+			return
+		}
+		recv := ssa.Value(fn.Params[pi])
+		// a value receiver spilled to a local: the local stands for the receiver
+		spilled := map[ssa.Value]bool{}
+		for _, ins := range fn.Blocks[0].Instrs {
+			if st, ok := ins.(*ssa.Store); ok && st.Val == recv {
+				spilled[st.Addr] = true
+			}
+		}
+		isRecv := func(v ssa.Value) bool { return v == recv || spilled[v] }
+		var pathOf func(v ssa.Value, depth int) (string, bool)
+		pathOf = func(v ssa.Value, depth int) (string, bool) {
+			if depth > 4 {
+				return "", false
+			}
+			fa, isFA := v.(*ssa.FieldAddr)
+			if !isFA {
+				return "", false
+			}
+			_, name, _ := fieldNameOfAddr(fa)
+			if isRecv(fa.X) {
+				return name, true
+			}
+			if pre, ok := pathOf(fa.X, depth+1); ok {
+				return pre + "." + name, true
+			}
+			return "", false
+		}
+		for _, b := range fn.Blocks {
+			for _, ins := range b.Instrs {
+				switch x := ins.(type) {
+				case *ssa.Store:
+					if p, ok := pathOf(x.Addr, 0); ok {
+						stored[p] = true
+					}
+				case *ssa.UnOp:
+					if p, ok := pathOf(x.X, 0); ok {
+						loaded[p] = true
+					}
+				case *ssa.Field:
+					if isRecv(x.X) {
+						loaded[x.X.Type().Underlying().(*types.Struct).Field(x.Field).Name()] = true
+					}
+				case ssa.CallInstruction:
+					for ai, a := range x.Common().Args {
+						if p, ok := pathOf(a, 0); ok {
+							whole[p] = true
+						}
+						// the receiver handed to a helper of the same package: the helper's accesses count
+						if callee := x.Common().StaticCallee(); callee != nil && depth < 3 && callee.Pkg == fn.Pkg {
+							if isRecv(a) {
+								collectInto(callee, ai, depth+1, stored, loaded, whole)
+							} else if u, ok := a.(*ssa.UnOp); ok && u.Op == token.MUL && isRecv(u.X) {
+								collectInto(callee, ai, depth+1, stored, loaded, whole)
+							}
+						}
+					}
+				}
+			}
+		}
+	}
+	n := 0
+	for _, name := range names {
+		t0 := byName[name]
+		if t0 == nil || t0.parse == nil || t0.enc == nil {
+			continue
+		}
+		ps, _, pw := collect(t0.parse)
+		_, el, ew := collect(t0.enc)
+		// stub encoders (return nil) encode nothing by design
+		if len(el) == 0 && len(ew) == 0 {
+			continue
+		}
+		n++
+		exc := map[string]bool{}
+		for _, e := range frozen.ParsedNotEncoded[name] {
+			exc[e] = true
+		}
+		var bad []string
+		covered := func(p string) bool {
+			if el[p] || ew[p] {
+				return true
+			}
+			for q := range ew {
+				if strings.HasPrefix(p, q+".") {
+					return true
+				}
+			}
+			for q := range el {
+				if strings.HasPrefix(q, p+".") {
+					return true // Encode reads inside the struct Parse stored as a whole
+				}
+			}
+			return false
+		}
+		for p := range ps {
+			if !covered(p) && !exc[p] {
+				bad = append(bad, p)
+			}
+		}
+		for p := range pw {
+			if !covered(p) && !exc[p] {
+				bad = append(bad, p+" (filled by a helper)")
+			}
+		}
+		sort.Strings(bad)
+		st, d := report.Discharged, ""
+		if len(bad) > 0 {
+			st, d = report.Violated, fmt.Sprintf("%s.Parse fills %v but Encode never reads it: the value is lost in Encode(Parse(body)) (a field of the same name inside an embedded struct is a different field)", name, bad)
+		}
+		R.Add("S.field-symmetry", name, c.P.RelPos(t0.enc.Pos()), st, d)
+	}
+	R.Notes["field_symmetry_types"] = n
 }
